@@ -189,7 +189,7 @@ func runC01(t *T) {
 	defer beginTrial(t, true)()
 	alpha := []string{"a", "b", "c"}
 	if c.Chance(1, 3) {
-		alpha = []string{"a", "ab", "b"} // names that are string prefixes of each other
+		alpha = [][]string{{"a", "ab", "b"}, {"a", "a.x", "b"}}[c.Draw(2)] // names that are string prefixes of each other (one more byte, several more bytes)
 	}
 	d, cleanup := newDiffRun(t, kind, alpha)
 	defer cleanup()
